@@ -184,18 +184,20 @@ func matches(kind string, ev rec.Event) bool {
 }
 
 type outcome struct {
-	r              *rec.Rec
-	escaped        any
-	atFault        int // recorder events when the fault fired (-1 = never fired)
-	srcs           []*src.Source
-	sub            ro.Subscription
-	hung           string
-	dump           string
-	unhandled      int
-	asyncish       bool
-	asyncishReal   bool
-	followUpHung   bool
-	beforeFollowUp []string
+	r       *rec.Rec
+	escaped any
+	// escapedSubscribe: the panic came out of the Subscribe call itself (not out of a later emission)
+	escapedSubscribe bool
+	atFault          int // recorder events when the fault fired (-1 = never fired)
+	srcs             []*src.Source
+	sub              ro.Subscription
+	hung             string
+	dump             string
+	unhandled        int
+	asyncish         bool
+	asyncishReal     bool
+	followUpHung     bool
+	beforeFollowUp   []string
 }
 
 func runEntry(e *catalog.Entry, sc src.Script, drive string, hit func(o *outcome) func(string) error, wrapped bool, panicInSub any, played src.Script, onEvent func(o *outcome, ev *rec.Event)) *outcome {
@@ -227,6 +229,7 @@ func runEntry(e *catalog.Entry, sc src.Script, drive string, hit func(o *outcome
 	st, dump, pan := quiesce.Call(func() { o.sub = p.Subscribe(context.Background(), o.r, wrapped) }, 10*time.Second)
 	if pan != nil {
 		o.escaped = pan
+		o.escapedSubscribe = true
 	}
 	if st == quiesce.Hung {
 		o.hung, o.dump = "Subscribe", dump
@@ -350,6 +353,11 @@ func judge(c driver.Case, e *catalog.Entry, o *outcome, refVals []string, what, 
 		if o.followUpHung {
 			res.Dirty = true
 			return fail("lock-left-held", "a follow-up notification after the fault never returns")
+		}
+		// ... but never out of Subscribe: a teardown that runs while the subscription is being set up (the
+		// source ended inside its subscribe function) fails inside the library's own recovering block
+		if o.escapedSubscribe {
+			return fail("panic-escaped", fmt.Sprintf("panic reached the caller of Subscribe: %v", o.escaped))
 		}
 		return *res
 	}
